@@ -145,3 +145,21 @@ def codes_sorted(values):
     distinct = sorted(set(values))
     rank = {v: i for i, v in enumerate(distinct)}
     return [rank[v] for v in values]
+
+
+def run_cli(flags):
+    """Run the command-line entry point in-process: outrank.__main__.main() with sys.argv built from ``flags``.
+
+    The tasks exit() in several places; SystemExit is swallowed. Returns the parsed-equivalent namespace for convenience."""
+    import outrank.__main__ as m
+    argv = ['outrank']
+    for k, v in flags.items():
+        argv += ['--' + k, str(v)]
+    old = sys.argv
+    sys.argv = argv
+    try:
+        m.main()
+    except SystemExit:
+        pass
+    finally:
+        sys.argv = old
